@@ -431,6 +431,8 @@ def analyze(ctx, want):
                     bad_w.append("%s := %s" % (old_s, S.fstr(e[4])[:50]))
     ob("C03.f", "state-renumbered-to-the-index-of-its-group", not bad_w, "writes that are not 'index of the group containing the old id': %s" % bad_w[:3], rn.loc())
     ob("C03.f", "sources-and-targets-renumbered", both["src"] and both["tgt"], "renumbered: %s" % both, rn.loc())
+    its = [M.short_name(M.call_name(t)) for f_ in [rn] + list(F.closures_of(rn)) for bb, t in f_.calls(ADAPTERS)]
+    ob("C03.f", "every-source-and-target-visited", not its, "iterator adapters that drop or reorder entries: %s" % its, rn.loc())
     mt = F.fn(r"Minimizer::merge_transitions$")
     ctx.analysed_fn(mt)
     ex, paths = run_fn(mt, F, LogModel())
